@@ -273,7 +273,11 @@ def coq_Zs(b):
 def term_coq(t):
     k = t[0]
     if k == "int":
-        return "OInt (%d)" % t[1]
+        z = t[1]
+        if abs(z) >= 2 ** 62:       # Coq parses long decimal literals very slowly: give the magnitude as big-endian bytes
+            m = abs(z)
+            return "OInt (zb %s %s)" % ("true" if z < 0 else "false", coq_Zs(m.to_bytes((m.bit_length() + 7) // 8, "big")))
+        return "OInt (%d)" % z
     if k == "float":
         return "OFloat " + coq_Zs(t[1])
     if k == "bytes":
@@ -354,7 +358,7 @@ class RxBanana(storage.StorageBanana):
             ready_deferred.addBoth(lambda r, slot=slot: slot.__setitem__(1, True))
 
 
-def receive(data, cuts, vocab=None):
+def receive(data, cuts, vocab=None, tolerate_abort=False):
     """feed `data` split at the offsets `cuts`; -> ("ok", [objects]) | ("exc"|"violation"|"pending", text)"""
     b = RxBanana()
     b.connectionMade()
@@ -370,7 +374,7 @@ def receive(data, cuts, vocab=None):
             E.turn()
     except Exception as e:
         return ("exc", "%s: %s" % (type(e).__name__, str(e)[:160]))
-    if b.violation:
+    if b.violation and not (tolerate_abort and "ABORT received" in str(b.violation.value)):
         return ("violation", str(b.violation.value)[:160])
     if b.disconnectReason:
         return ("exc", str(b.disconnectReason.value)[:160])
